@@ -78,7 +78,7 @@ reg("C11", "model_checking", "E2",
     "python tasks, a workflow and a workflow nesting a workflow with {plain, rerun+propagate, rerun without propagate}, and "
     "planting a leftover job directory; every transition runs the real Submitter on the restored directory snapshot; body "
     "executions, outputs, read-only cache bytes and the resulting cache state are compared with a dictionary model. Quick: "
-    "3 cache lists, fixed point reached (31-57 states each); thorough: 5 lists, all identities plantable, depth cap 12.",
+    "3 cache lists, fixed point reached (31-57 states each); thorough: 5 lists, all identities plantable, depth cap 8 / 400 states per search.",
     "Async path uses the default FIFO schedule of the virtual worker; canonical state = identity -> {incomplete, errored, complete} + leftover files.")
 
 reg("C07", "exploration", "E1+E6",
